@@ -9,8 +9,8 @@ O  : the property itself on the real objects: a copy (each of the three routes) 
      was and shows the same observable state; after the history a mutation battery is applied to every root in turn (every reachable
      array / list / dict mutated, variables and attributes added, lags changed) and every OTHER root must be bit-for-bit unchanged;
      no mutable object is reachable from two roots; no class-level mutable is reachable from an instance.  Pairs that share because
-     the CALLER shared (one span list handed to two constructors, models handed to a linker) and reindex() lineages (C12, #21)
-     are outside the claim.
+     the CALLER shared (one span list handed to two constructors, models handed to a linker) are outside the claim; reindex()
+     results must be as independent as copies (since fixes af303e7 / 28b2a9a).
 """
 import copy as _copy
 import glob
@@ -47,8 +47,6 @@ ASSUMPTIONS = ['claim is PARTIAL: the heap model abstracts CPython object semant
                'a span list handed to two constructors, and models handed to a linker, are shared by the CALLER (stored by reference); '
                'independence is claimed for arguments nobody else holds',
                'a VectorContainer nested inside another container\'s attribute (other than a linker\'s submodels) is outside the model',
-               'reindex() lineages are outside the claim (C12, finding #21: object-dtype cells are copied by reference); the model '
-               'mirrors that sharing and K compares it',
                'equality at copy time = equality of the observable state (orphan `_name` arrays that no accessor reaches, left by '
                '__init__ of a class whose NAMES list was extended after the original was created, are not compared); aliasing BETWEEN '
                'entries of one object (only the user creates it: m.mine = m.names) may be kept or dropped by copy() - both memo policies '
@@ -417,7 +415,7 @@ def impl(case):
             elif kind == 'reindex':
                 i, sd = ev[1], ev[2]
                 src = roots[i]
-                new = src.reindex(make_span(sd))
+                new = src.reindex(src.__dict__['span'] if sd.get('own') else make_span(sd))     # own: reindex(obj.span), the object's own span object
                 roots.append(new)
                 derived.append([len(roots) - 1, 'reindex', i])
             elif kind == 'op':
@@ -727,6 +725,9 @@ def c_consts(enc):
 
 
 def c_span_src(sd, enc, span_locs):
+    if sd.get('own') and sd['kind'] in ('list', 'ndarray'):
+        # the span object of the source itself: the result (a copy at that point) reads its own equal copy of it; reindex deep-copies it
+        return '(SAlias %s)' % czl([akey(enc.code('span'))])
     if sd['kind'] == 'shared':
         return '(SArg %d%%nat)' % span_locs[sd['id']]
     sp = make_span(sd)
@@ -891,8 +892,7 @@ def c_case(case, obs):
         elif k == 'reindex':
             src = kinds[ev[1]]
             sd = ev[2]
-            old = list(make_span({'kind': 'list', 'start': src['span_start'], 'n': src['n']})) if 'span_start' in src else None
-            new = list(make_span(sd))
+            new = make_span(sd, labels_only=True)
             oldspan = case['reindex_old'][str(ev[1])]
             positions = [(i, oldspan.index(p)) for i, p in enumerate(new) if p in oldspan]
             fills = [(enc.code(nm), enc.code(lib.unhex(f) if isinstance(f, str) and f == 'nan' else f)) for nm, f in ev[3]]
@@ -1087,24 +1087,6 @@ def expected_shared_pairs(case):
             for b in users:
                 if a < b:
                     pairs.add((a, b))
-    # reindex() is C12's subject (finding #21: object-dtype cells are copied by reference): a reindexed object, its source and
-    # every other reindex result of that lineage may share Trace objects; C11 claims nothing for such pairs
-    comp = list(range(nroots))
-
-    def find(a):
-        while comp[a] != a:
-            a = comp[a]
-        return a
-    idx = len(case['classes'])
-    for ev in case['events']:
-        if ev[0] in ('init', 'copy', 'linker_init', 'reindex'):
-            if ev[0] == 'reindex':
-                comp[find(idx)] = find(ev[1])
-            idx += 1
-    for a in range(nroots):
-        for b in range(a + 1, nroots):
-            if find(a) == find(b):
-                pairs.add((a, b))
     return pairs
 
 
@@ -1347,6 +1329,8 @@ def gen_case(rng, flavour, uniq):
             i = rng.choice([k for k in live if shadows[k].kind == 'model'])
             sd = {'kind': 'list', 'start': rng.choice([0, 1, 2000, 2001, 1999]), 'n': rng.choice([2, 3, 4])}
             src = shadows[i]
+            if rng.random() < 0.25:
+                sd = {'kind': 'own', 'n': src.n}          # obj.reindex(obj.span): resolved in finish()
             # the old span (labels) is needed for the position map: recomputed from the history in finish()
             events.append(['reindex', i, sd, None])
             s = src.clone()
@@ -1499,6 +1483,7 @@ def finish(case):
     vars_of = [None] * n_cls
     kinds = [None] * n_cls
     reindex_old = {}
+    span_sd = [None] * n_cls          # per root: the description of the span object it holds
     class_names = [list(d['endo']) + list(d['exo']) for d in case['classes']]      # the class NAMES lists as the history mutates them
     for ev in case['events']:
         if ev[0] == 'op' and ev[1] < n_cls and ev[2][0] == 'lappend' and ev[2][1] == 'NAMES':
@@ -1509,15 +1494,21 @@ def finish(case):
             d = case['classes'][ev[1]]
             vars_of.append({nm: 'float' for nm in class_names[ev[1]]})
             kinds.append(d)
+            span_sd.append(dict(case['shared_spans'][sd['id']]) if sd['kind'] == 'shared' else dict(sd))
         elif ev[0] == 'copy':
             spans.append(list(spans[ev[1]]) if spans[ev[1]] is not None else None)
             vars_of.append(dict(vars_of[ev[1]]) if vars_of[ev[1]] is not None else None)
             kinds.append(kinds[ev[1]])
+            span_sd.append(span_sd[ev[1]])
         elif ev[0] == 'linker_init':
             spans.append(list(spans[ev[2][0][1]]))
             vars_of.append({'LV': 'float'})
             kinds.append(case['classes'][ev[1]])
+            span_sd.append(span_sd[ev[2][0][1]])
         elif ev[0] == 'reindex':
+            if ev[2].get('kind') == 'own' or ev[2].get('own'):
+                ev[2] = dict(span_sd[ev[1]], own=True)
+            span_sd.append({k: v for k, v in ev[2].items() if k != 'own'})
             reindex_old[str(ev[1])] = list(spans[ev[1]])
             fills = [['status', '-'], ['iterations', -1]]
             for nm, dt in vars_of[ev[1]].items():
@@ -1525,7 +1516,7 @@ def finish(case):
             if kinds[ev[1]]['tracer']:
                 fills.append(['trace', None])
             ev[3] = fills
-            spans.append(list(make_span(ev[2])))
+            spans.append([int(v) for v in make_span(ev[2], labels_only=True)])
             vars_of.append(dict(vars_of[ev[1]]))
             kinds.append(kinds[ev[1]])
         elif ev[0] == 'op' and ev[2][0] == 'addvar' and vars_of[ev[1]] is not None and ev[2][1] not in vars_of[ev[1]]:
